@@ -389,6 +389,7 @@ type c02Hist struct {
 	mfinal, dfinal []WalkEnt
 	view           []string
 	idx            int
+	shape, setup   string
 }
 
 func (h *c02Hist) desc() map[string]interface{} {
@@ -399,7 +400,7 @@ func (h *c02Hist) desc() map[string]interface{} {
 		do.fillJSON()
 		l[i] = map[string]interface{}{"op": s.op, "mem": mo, "disk": do, "pre": s.pre}
 	}
-	return map[string]interface{}{"index": h.idx, "view": h.view, "history": l}
+	return map[string]interface{}{"index": h.idx, "view": h.view, "history": l, "shape": h.shape, "setup": h.setup}
 }
 
 func (h *c02Hist) coqCase() string {
@@ -471,7 +472,7 @@ func c02Exec(fs filesystem.Filespace, op FsOp) FsOut {
 	return o
 }
 
-func runC02History(o *Out, r *RNG, gen *FsGen, scratch string, idx int, maxLen int) {
+func runC02History(o *Out, r *RNG, gen *FsGen, scratch string, idx int, maxLen int, opts c02Opts) {
 	dir := fmt.Sprintf("%s/h%d", scratch, idx)
 	must(os.MkdirAll(dir+"/root", 0o755))
 	must(os.MkdirAll(dir+"/keep", 0o755))
@@ -486,7 +487,7 @@ func runC02History(o *Out, r *RNG, gen *FsGen, scratch string, idx int, maxLen i
 	must(err)
 	var mfs, dfs filesystem.Filespace = mroot, droot
 	mref, dref := NewRefFS(), NewRefFS()
-	h := &c02Hist{idx: idx}
+	h := &c02Hist{idx: idx, shape: opts.tag, setup: opts.setupDesc}
 	var base []string
 	failed := false
 	fail := func(oracle, what, sig string) {
@@ -501,6 +502,10 @@ func runC02History(o *Out, r *RNG, gen *FsGen, scratch string, idx int, maxLen i
 	}
 	viewMode := r.Chance(30)
 	gen.Reset()
+	if opts.namePool != nil {
+		gen.Names = c02DrawNames(r, opts.namePool)
+	}
+	o.Stat("shape_" + opts.tag)
 	var mcur, dcur c02Tree = c02Tree{}, c02Tree{}
 	muts, preCount := 0, 0
 
@@ -634,6 +639,9 @@ func runC02History(o *Out, r *RNG, gen *FsGen, scratch string, idx int, maxLen i
 		if len(base) > 2 {
 			base = base[:2]
 		}
+		if r.Chance(8) {
+			base = nil // a view of the root directory itself: Filespace("") / Filespace(".")
+		}
 		bs := gen.spell(r, base)
 		mk := FsOp{Kind: "MkdirAll", P: bs}
 		mk.fillJSON()
@@ -641,8 +649,22 @@ func runC02History(o *Out, r *RNG, gen *FsGen, scratch string, idx int, maxLen i
 			goto done
 		}
 		var e1, e2 error
-		mfs, e1 = mroot.Filespace(bs)
-		dfs, e2 = droot.Filespace(bs)
+		if len(base) == 2 && r.Chance(40) {
+			// the same view reached in two steps: Filespace(b0).Filespace(b1) (a child of a child)
+			b0, b1 := gen.spell(r, base[:1]), gen.spell(r, base[1:])
+			bs = b0 + "/" + b1
+			var m1, d1 filesystem.Filespace
+			if m1, e1 = mroot.Filespace(b0); e1 == nil && m1 != nil {
+				mfs, e1 = m1.Filespace(b1)
+			}
+			if d1, e2 = droot.Filespace(b0); e2 == nil && d1 != nil {
+				dfs, e2 = d1.Filespace(b1)
+			}
+			o.Stat("history_view_two_steps")
+		} else {
+			mfs, e1 = mroot.Filespace(bs)
+			dfs, e2 = droot.Filespace(bs)
+		}
 		if e1 != nil || e2 != nil || mfs == nil || dfs == nil {
 			fail("backends_agree", fmt.Sprintf("Filespace(%q) on a directory created just before failed: memory %v, disk %v", bs, e1, e2), "view-create")
 			goto done
@@ -652,11 +674,57 @@ func runC02History(o *Out, r *RNG, gen *FsGen, scratch string, idx int, maxLen i
 	} else {
 		o.Stat("history_root")
 	}
+	if len(opts.setup) > 0 {
+		// bulk preparation (wide directories): applied to both backends without the per-step walks
+		for i, op := range opts.setup {
+			mo, do := c02Exec(mfs, op), c02Exec(dfs, op)
+			if mo.Kind != "unit" || do.Kind != "unit" {
+				fail("setup", fmt.Sprintf("preparation step %d %s(%q): memory %s %s, disk %s %s", i, op.Kind, op.P, mo.Kind, mo.Msg, do.Kind, do.Msg), "setup:"+op.Kind)
+				goto done
+			}
+		}
+		mw, ok1, why1 := walkFs(mroot)
+		dw, ok2, why2 := walkFs(droot)
+		if !ok1 || !ok2 {
+			fail("walk", "after the preparation: tree walk failed: "+why1+" "+why2, "walk")
+			goto done
+		}
+		if eq, why := walkEqual(mw, dw); !eq {
+			fail("backends_agree", "after the preparation (MkdirAll/WriteFile only): trees differ (memory vs disk): "+why, "agree-tree:setup")
+			goto done
+		}
+		mcur, dcur = treeOf(mw), treeOf(dw)
+		mref, dref = NewRefFS(), NewRefFS()
+		for k, v := range mcur {
+			mref.m[k] = v
+		}
+		for k, v := range dcur {
+			dref.m[k] = v
+		}
+		if want := opts.setupWant; want != nil {
+			if eq, why := walkEqual(dw, want(base)); !eq {
+				fail("plain_tree_disk", "after the preparation: the tree is not what was written: "+why, "tree-disk:setup")
+				goto done
+			}
+		}
+	}
+	if opts.script != nil {
+		for _, op := range opts.script {
+			op.View = h.view
+			op.fillJSON()
+			if !step(op, false) {
+				break
+			}
+		}
+		goto done
+	}
 	for i := 0; i < ln; i++ {
 		var op FsOp
 		wantPre := r.Chance(80)
 		for try := 0; ; try++ {
-			if wantPre && r.Chance(70) {
+			if opts.opGen != nil {
+				op = opts.opGen(r, gen, base, dcur)
+			} else if wantPre && r.Chance(70) {
 				op = c02SmartOp(r, gen, base, dcur)
 			} else if !wantPre && r.Chance(20) {
 				op = c02CornerOp(r, gen, base, dcur)
@@ -671,6 +739,14 @@ func runC02History(o *Out, r *RNG, gen *FsGen, scratch string, idx int, maxLen i
 			o.Stat("mode_pre")
 		} else {
 			o.Stat("mode_free")
+		}
+		if r.Chance(opts.decorate) {
+			// two spelling features at once: the generator's spelling wrapped once more
+			op.P = c02Decorate(r, gen, op.P)
+			if op.Q != "" || op.Kind == "Copy" || op.Kind == "CopyDir" || op.Kind == "CopyFile" {
+				op.Q = c02Decorate(r, gen, op.Q)
+			}
+			o.Stat("decorated")
 		}
 		op.View = h.view
 		if !step(op, false) {
@@ -693,7 +769,16 @@ done:
 	for i, s := range h.steps {
 		ops[i] = s.op
 	}
-	if !panicked {
+	if !panicked && !failed {
+		if msg := c02InfoProbe(mroot, h.mfinal, "memory"); msg != "" {
+			fail("info_agree", msg, "info-mem")
+		} else if msg := c02InfoProbe(droot, h.dfinal, "disk"); msg != "" {
+			fail("info_agree", msg, "info-disk")
+		}
+	}
+	if opts.noL1 {
+		o.CountEval(opts.tag+":"+histKey(ops), muts > 0 && preCount > 0)
+	} else if !panicked {
 		o.AddCase(h.coqCase(), h.desc(), histKey(ops), muts > 0 && preCount > 0)
 	} else {
 		o.CountEval(histKey(ops), false)
@@ -713,23 +798,68 @@ func runC02(o *Out, rng *RNG, tier string, replay string) {
 	o.CaseType = "case"
 	o.CheckFn = "check"
 	o.ShardSize = 32
-	o.Rule = "histories of 1-25 of the 16 Filespace operations run on a fresh memfs AND a fresh diskfs (temp directory), 30% of the histories with both backends behind a child view created on an existing directory; ~80% of the operations are drawn until the preconditions (Go mirror of pre_at, evaluated on the disk tree) hold — mostly built from the current tree — and ~20% freely (8 spellings per path, climbing/root-addressing pool). After every step: both outputs, both trees (walk through the parent filespace), the host directory above the disk root. L2: backends_agree where the preconditions hold; no_panic, frame_mem/frame_disk, host_untouched, plain_tree_mem/plain_tree_disk on every step. L1: memfs vs Model/Fs.v, diskfs vs Model/DiskFs.v and the C02_equiv/C02_view statement on the implementations' answers, evaluated in Coq. Non-trivial: at least one successful mutation and one step with the preconditions met; distinct by operation sequence."
+	o.Rule = "600 histories of 1-25 of the 16 Filespace operations run on a fresh memfs AND a fresh diskfs (temp directory), 30% of the histories with both backends behind a child view created on an existing directory; ~80% of the operations are drawn until the preconditions (Go mirror of pre_at, evaluated on the disk tree) hold — mostly built from the current tree — and ~20% freely (8 spellings per path, climbing/root-addressing pool). After every step: both outputs, both trees (walk through the parent filespace), the host directory above the disk root. L2: backends_agree where the preconditions hold; no_panic, frame_mem/frame_disk, host_untouched, plain_tree_mem/plain_tree_disk on every step. L1: memfs vs Model/Fs.v, diskfs vs Model/DiskFs.v and the C02_equiv/C02_view statement on the implementations' answers, evaluated in Coq. Further shapes through the same runner and oracles: a fifth of the operations with a second spelling wrapped around the first (/./a//b/x//..); 100 histories whose names are half odd (..a, a.., ..., blanks, backslash, upper case, non-UTF-8, glob/percent characters) and 6 with names of 128-255 bytes; a name sweep (one scripted history per odd/long/ordinary name: all 16 operations on the name at the first and the last position of a path, queries on what trimming, case folding, UTF-8 repair, unescaping or separator translation would make of it, a look-alike sibling, copies of and into the directories holding it); 80 histories with contents of 4 KiB-256 KiB around the buffer sizes (Writer sessions mixing small and large chunks, Reader sessions over the whole file; L2 only); a directory of 1100 files and 41 directories listed, copied and removed (L2 only); chains of 40-60 directories (L2 only). 8% of the views are views of the root directory, 40% of the two-level views are made by Filespace(b0).Filespace(b1). At the end of every history info_agree: Lstat and the ReadDir entries of every node carry its name, kind and size on both backends. Non-trivial: at least one successful mutation and one step with the preconditions met; distinct by operation sequence."
 	gen := defaultFsGen()
 	gen.ViewPct = 0
 	gen.Contents = [][]byte{{}, []byte("a"), []byte("hello"), {0, 255, 195, 169, 10, 47, 46, 46, 92, 34, 1, 2, 3, 4, 5, 6, 7}, []byte("0123456789abcdefghijklmnopqrstuvwxyz0123456789ABCDEFGHIJKLMNOPQRSTUVWXYZ"), []byte("0123456789")}
-	n := 600
+	n, nOdd, nLong, nBig, nWide, nDeep := 600, 100, 6, 80, 1, 3
 	if tier == "thorough" {
-		n = 15000
+		n, nOdd, nLong, nBig, nWide, nDeep = 15000, 4000, 100, 1500, 6, 60
 	}
 	scratch, err := os.MkdirTemp("", "verif-c02-")
 	must(err)
 	defer os.RemoveAll(scratch)
 	only := replayIndex(replay)
-	for i := 0; i < n; i++ {
+	idx := 0
+	shapeMs := map[string]float64{}
+	o.Extra["shape_ms"] = shapeMs
+	run := func(g *FsGen, maxLen int, opts func(r *RNG) c02Opts) {
 		r := rng.Fork()
-		if only >= 0 && i != only {
-			continue
+		if only < 0 || idx == only {
+			op, t0 := opts(r), time.Now()
+			runC02History(o, r, g, scratch, idx, maxLen, op)
+			shapeMs[op.tag] += float64(time.Since(t0).Microseconds()) / 1000
 		}
-		runC02History(o, r, gen, scratch, i, 25)
+		idx++
+	}
+	wideGen := defaultFsGen() // for the scripted histories: only the view base is drawn from it
+	wideGen.ViewPct = 0
+	// names at the host's length limit (first: their Coq literals are long, the shard starts early)
+	oddGen := defaultFsGen()
+	oddGen.ViewPct = 0
+	oddGen.Contents = gen.Contents
+	for i := 0; i < nLong; i++ {
+		run(oddGen, 10, func(*RNG) c02Opts { return c02Opts{tag: "long_names", decorate: 20, namePool: c02LongNames} })
+	}
+	// name sweep: every operation on every odd name (first and last position of a path) and on its
+	// look-alikes; the ordinary names too (their look-alikes are the upper-case ones)
+	for _, nm := range append(append(append([]string{}, c02OddNames...), c02LongNames...), c02PlainNames...) {
+		nm := nm
+		run(wideGen, 1, func(*RNG) c02Opts { return c02Opts{tag: "name_sweep", noL1: len(nm) > 100, script: c02NameScript(nm)} })
+	}
+	// the random histories; a fifth of the operations carries a second spelling around the first
+	for i := 0; i < n; i++ {
+		run(gen, 25, func(*RNG) c02Opts { return c02Opts{tag: "plain", decorate: 20} })
+	}
+	// the same with node names a careless mapping onto the host would fold, trim or take for a climb
+	for i := 0; i < nOdd; i++ {
+		run(oddGen, 25, func(*RNG) c02Opts { return c02Opts{tag: "odd_names", decorate: 20, namePool: c02OddNames} })
+	}
+	// contents around the buffer sizes of the host interface (L2 only)
+	bigGen := c02BigGen()
+	for i := 0; i < nBig; i++ {
+		run(bigGen, 14, func(*RNG) c02Opts { return c02Opts{tag: "big_contents", noL1: true, opGen: c02BigOp} })
+	}
+	// a directory with more entries than a listing batch, chains of 40-60 directories (both L2 only:
+	// the per-step tree walks of such trees are too long for Coq literals)
+	for i := 0; i < nWide; i++ {
+		run(wideGen, 1, func(*RNG) c02Opts {
+			setup, want := c02WideSetup()
+			return c02Opts{tag: "wide_directory", noL1: true, setup: setup, setupWant: want, script: c02WideScript(),
+				setupDesc: fmt.Sprintf("MkdirAll(w/sub); WriteFile(w/f0000 … w/f%04d, \"content of entry <i>\"); MkdirAll(w/d00 … w/d39)", c02WideN-1)}
+		})
+	}
+	for i := 0; i < nDeep; i++ {
+		run(wideGen, 1, func(r *RNG) c02Opts { return c02Opts{tag: "deep_chain", noL1: true, script: c02DeepScript(r)} })
 	}
 }
